@@ -70,12 +70,25 @@ WORKLOADS = {
         _f("f0", ["x0"], ["a"], None, {"x0": "whole"}, []),
         {**_f("f1", ["a"], ["b0", "b1"], None, {"a": "whole"}, []), "picker": True},
         _f("f2", ["b1", "x0"], ["c"], None, {"b1": "whole", "x0": "whole"}, [])]},
+    # long enough for holes in the set of missing elements to matter (every second element fails in the first run)
+    "long-map": {"sizes": {**SZ, "i": 14}, "roots": {"x0": {"axes": ["i"], "kind": "list"}}, "funcs": [
+        _f("f0", ["x0"], ["y0"], "x0[i] -> y0[i]", {"x0": ["i"]}, ["i"]),
+        _f("f1", ["y0"], ["y1"], None, {"y0": "whole"}, [])]},
     "internal-first": {"sizes": SZ, "roots": {"x0": {"axes": ["i"], "kind": "ndarray"}}, "funcs": [
         _f("f0", ["x0"], ["y0"], "x0[i] -> y0[j, i]", {"x0": ["i"]}, ["j", "i"], ["j"], [2], "pipefunc", True),
         _f("f1", ["y0"], ["t"], "y0[:, i] -> t[i]", {"y0": [None, "i"]}, ["i"])]},
 }
 QUICK_W = ["map3+reduce", "tuple-out", "internal-axis", "no-mapspec-picker"]
 STORAGES = ["file_array", "dict", "shared_memory_dict"]
+
+
+def _st(case, storage):
+    """'mix-up-dict': the outputs of the FIRST function live in a dict storage (persisted only when a map ends), everything
+    downstream in file arrays (each element written at once)."""
+    if storage != "mix-up-dict":
+        return storage
+    f0 = case["funcs"][0]
+    return {"": "file_array", (tuple(f0["outs"]) if len(f0["outs"]) > 1 else f0["outs"][0]): "dict"}
 
 
 # ----------------------------------------------------------------------------- child processes
@@ -119,7 +132,7 @@ def _map_child(case, storage, mode, root, log, cleanup, out, crash_at=None, tear
             try:
                 p0 = mapgen.build_pipeline(case, log=log + ".prelude", fault=prelude_fault)
                 p0.map(inputs if inputs is not None else mapgen.make_inputs(case), run_folder=root,
-                       internal_shapes=mapgen.internal_shapes_arg(case), storage=storage, cleanup=True, parallel=True)
+                       internal_shapes=mapgen.internal_shapes_arg(case), storage=_st(case, storage), cleanup=True, parallel=True)
                 res["prelude"] = "returned"
             except BaseException as e:  # noqa: BLE001
                 res["prelude"] = type(e).__name__
@@ -140,15 +153,15 @@ def _map_child(case, storage, mode, root, log, cleanup, out, crash_at=None, tear
 
                 ex = ThreadPoolExecutor(2)
                 kw = {"executor": ex}
-            elif mode == "process":
+            elif mode in ("process", "process1"):
                 import multiprocessing
                 from concurrent.futures import ProcessPoolExecutor
 
-                ex = ProcessPoolExecutor(2, mp_context=multiprocessing.get_context("fork"))
+                ex = ProcessPoolExecutor(2 if mode == "process" else 1, mp_context=multiprocessing.get_context("fork"))
                 kw = {"executor": ex}
             try:
                 r = pipeline.map(inputs if inputs is not None else mapgen.make_inputs(case), run_folder=root,
-                                 internal_shapes=mapgen.internal_shapes_arg(case), storage=storage, cleanup=cleanup, **kw)
+                                 internal_shapes=mapgen.internal_shapes_arg(case), storage=_st(case, storage), cleanup=cleanup, **kw)
             finally:
                 if ex is not None:
                     ex.shutdown(wait=True)
@@ -215,6 +228,19 @@ def plan(tier, seed):
     modes = ["seq"] if tier == "quick" else ["seq", "thread"]
     descs = []
     rng = random.Random(f"c05:{seed}")
+    # every second element of a long map fails under a one-worker process pool: the others get stored, the resume (same pool
+    # type) must compute exactly the missing ones
+    for st in ("file_array", "shared_memory_dict"):
+        for pmode in ("process1", "thread"):
+            descs.append({"w": "long-map", "st": st, "mode": pmode, "kind": "raise-many", "every": 2})
+            descs.append({"w": "long-map", "st": st, "mode": pmode, "kind": "raise-many", "every": 3})
+    # a dict-stored upstream array (lost by the interruption) below file-array outputs (kept): raise at every call
+    for w in ("tuple-out", "internal-axis"):
+        _, exp_c = mapgen.oracle(WORKLOADS[w])
+        ncalls_w = sum(len(x) for x in exp_c.values())
+        for pmode in ("seq", "thread"):
+            for c in range(1, ncalls_w + 1):
+                descs.append({"w": w, "st": "mix-up-dict", "mode": pmode, "kind": "raise", "call": c})
     for w in wl:
         for st in STORAGES:
             for mode in modes:
@@ -452,6 +478,25 @@ def run_case(desc):
             v.count("same_process_resumes_after_worker_death")
             check_resume(v, desc, case, env, exp_calls, root, scratch, set(), "resume", f"same-process-after-worker-death:{fname}",
                          prelude_fault={fname: {"kill": {t: 9}}})
+        elif desc["kind"] == "raise-many":
+            f0 = case["funcs"][0]
+            terms = [t for _, t in exp_calls[f0["name"]]]
+            failing = terms[::desc["every"]]
+            fault = {f0["name"]: {"raise": {t: ["ValueError", "injected"] for t in failing}}}
+            out1 = os.path.join(scratch, "crash.out")
+            rc = _map_child(case, desc["st"], desc["mode"], root, log1, True, out1, trace=trace, fault=fault)
+            try:
+                r1 = json.load(open(out1))
+            except Exception:  # noqa: BLE001
+                r1 = {}
+            if rc != 1 or r1.get("exc", {}).get("type") != "ValueError":
+                v.bad("raise-point:not-propagated", f"injected ValueError did not surface (rc={rc}, {r1.get('exc')})", desc=desc)
+                return v.result(evaluations=v.counters.get("resumes", 0), key=json.dumps(desc, sort_keys=True))
+            v.count("raises")
+            v.count("first_runs_with_several_failing_elements")
+            ev = fsmon.read_trace(trace)
+            done = fsmon.complete_files(ev + [[0, "end", ".", None, 0, "CRASH"]])
+            check_resume(v, desc, case, env, exp_calls, root, scratch, done, "resume", f"raise-many:every-{desc['every']}")
         elif desc["kind"] == "raise":
             fname = None
             # the c-th probe call overall raises: translate to (function, term) using the recorded order = oracle order
